@@ -135,6 +135,65 @@ Definition historical_verify (now1 now2 : N) (self other : quote) : bool :=
     let live_time_diff := live_time mn - live_time mo in
     if time_diff + Consts.live_time_margin <? live_time_diff then false else true.
 
+(* ---------- SwarmDriver::verify_peer_quote (ant-networking/src/cmd.rs) ----------
+   `quotes_history` keeps one reference quote per peer.  A delivered quote is checked against the
+   reference with historical_verify: failure records a BadQuoting issue and leaves the reference
+   alone; otherwise the quote becomes the reference unless the reference is newer.  Peers are
+   opaque numbers; `now` is the clock reading of that delivery. *)
+Definition history := list (N * quote).
+
+Fixpoint h_lookup (p : N) (h : history) : option quote :=
+  match h with
+  | [] => None
+  | (p', q) :: r => if p =? p' then Some q else h_lookup p r
+  end.
+
+Fixpoint h_upsert (p : N) (q : quote) (h : history) : history :=
+  match h with
+  | [] => [(p, q)]
+  | (p', q') :: r => if p =? p' then (p, q) :: r else (p', q') :: h_upsert p q r
+  end.
+
+(* returns the new history and whether the quote was flagged (NodeIssue::BadQuoting) *)
+Definition verify_peer_quote (now : N) (h : history) (p : N) (q : quote) : history * bool :=
+  match h_lookup p h with
+  | Some ref =>
+      if negb (historical_verify now now ref q) then (h, true)
+      else if is_newer_than ref q then (h, false)
+      else (h_upsert p q h, false)
+  | None => (h_upsert p q h, false)
+  end.
+
+(* a delivery: (clock reading, peer, quote); the run returns the final history and, per
+   delivery, whether it was flagged *)
+Definition delivery := (N * N * quote)%type.
+
+Fixpoint run_deliveries (h : history) (ds : list delivery) : history * list bool :=
+  match ds with
+  | [] => (h, [])
+  | (now, p, q) :: r =>
+      let (h1, f) := verify_peer_quote now h p q in
+      let (h2, fs) := run_deliveries h1 r in (h2, f :: fs)
+  end.
+
+(* the quotes of peer p that were delivered and not flagged *)
+Fixpoint accepted (h : history) (ds : list delivery) (p : N) : list quote :=
+  match ds with
+  | [] => []
+  | (now, p', q) :: r =>
+      let (h1, f) := verify_peer_quote now h p' q in
+      if (p =? p') && negb f then q :: accepted h1 r p else accepted h1 r p
+  end.
+
+Definition dominates (hq a : quote) : Prop :=
+  timestamp a <= timestamp hq /\
+  live_time (qmetrics a) <= live_time (qmetrics hq) /\
+  received_payment_count (qmetrics a) <= received_payment_count (qmetrics hq).
+
+Definition reports_less (q a : quote) : Prop :=
+  live_time (qmetrics q) < live_time (qmetrics a) \/
+  received_payment_count (qmetrics q) < received_payment_count (qmetrics a).
+
 (* ---------- the per-case key system built from what the harness reports ---------- *)
 Definition mkK (pks : list (list N * N)) (peers : list (N * list N))
            (encs : list (list N * list N)) (sigs : list (list N * sig)) : keysys :=
@@ -167,3 +226,15 @@ Definition agree_proof_expired (now : N) (p : proof) (r : bool) : bool :=
 
 Definition agree_historical (now : N) (a b : quote) (newer r : bool) : bool :=
   Bool.eqb (is_newer_than a b) newer && Bool.eqb (historical_verify now now a b) r.
+
+(* deliveries with per-step observations: flagged?, and the timestamp of the stored reference of
+   that peer afterwards (None if none) *)
+Fixpoint agree_history (h : history) (steps : list (delivery * (bool * option N))) : bool :=
+  match steps with
+  | [] => true
+  | ((now, p, q), (f, ref_ts)) :: r =>
+      let (h1, f') := verify_peer_quote now h p q in
+      Bool.eqb f f' &&
+      option_eqb N.eqb (match h_lookup p h1 with Some x => Some (timestamp x) | None => None end) ref_ts &&
+      agree_history h1 r
+  end.
